@@ -127,46 +127,52 @@ def _real(seed):
                   constraints=cons, batch_size=-1, random_state=int(seed))
         Xt, Yt, At = est._validate_input(X, y, sf, True)              # set-up only (freshly initialised models), no training step
         eng = est.backendEngine_
-        P = copy.deepcopy(eng.predictor_model); A = copy.deepcopy(eng.adversary_model)
-        P.train(); A.train()
-        Yh = P(Xt)
-        LP = eng.predictor_loss(Yh, Yt)
-        pp = list(P.parameters()); ap = list(A.parameters())
-        gP = torch.autograd.grad(LP, pp, retain_graph=True, allow_unused=True)
-        Z = torch.cat((Yh, Yt), dim=1) if est.pass_y_ else Yh
-        LA = eng.adversary_loss(A(Z), At)
-        gAp = torch.autograd.grad(LA, pp, retain_graph=True, allow_unused=True)
-        gAu = torch.autograd.grad(LA, ap, allow_unused=True)
-        if not all(torch.isfinite(t).all() for t in list(gP) + list(gAp) + list(gAu) if t is not None):
-            return out, None                                           # non-finite loss gradient at initialisation: nothing to compare
-        before_p = [p.detach().clone() for p in eng.predictor_model.parameters()]
-        before_a = [p.detach().clone() for p in eng.adversary_model.parameters()]
-        est.partial_fit(X, y, sensitive_features=sf)                  # the observed step
         multi = zero = False
-        for i, p in enumerate(eng.predictor_model.parameters()):
-            gp = gP[i] if gP[i] is not None else torch.zeros_like(before_p[i])
-            ga = gAp[i] if gAp[i] is not None else torch.zeros_like(before_p[i])
-            nn_ = float((ga.double() * ga.double()).sum())
-            if p.dim() == 2 and p.shape[0] > 1 and p.shape[1] > 1:
-                multi = True
-            if nn_ == 0.0:
-                zero = True
-                g = gp
-            else:
-                g = gp - ((ga.double() * gp.double()).sum() / nn_).float() * ga - alpha * ga
-            exp = before_p[i] - lr * g
-            got = p.detach()
-            scale = max(1.0, float(exp.abs().max()))
-            if torch.isnan(got).any():
-                out.append(({"api": "train_step", "kind": "nan", "gA_zero": nn_ == 0.0, **sig0}, f"predictor tensor {i} (shape {tuple(p.shape)}) became NaN; |dLA/dW|^2 = {nn_}", detail))
-            elif float((got - exp).abs().max()) > TOL * scale:
-                out.append(({"api": "train_step", "kind": "predictor_update", "several_rows": bool(p.dim() == 2 and p.shape[0] > 1), **sig0},
-                            f"predictor tensor {i} (shape {tuple(p.shape)}) differs from the documented update by {float((got - exp).abs().max())}", detail))
-        for i, p in enumerate(eng.adversary_model.parameters()):
-            gu = gAu[i] if gAu[i] is not None else torch.zeros_like(before_a[i])
-            exp = before_a[i] - lr * gu
-            if float((p.detach() - exp).abs().max()) > TOL * max(1.0, float(exp.abs().max())):
-                out.append(({"api": "train_step", "kind": "adversary_update", **sig0}, f"adversary tensor {i} does not follow the plain gradient of LA", detail))
+        for step_no, alpha_now in enumerate((alpha, float(rs.choice([0.0, 0.25, 2.0, 5.0])))):
+            # the estimator's alpha may be rescheduled between steps (partial_fit loops, callbacks): each step uses the current value
+            est.alpha = alpha_now
+            detail["alpha_step"] = [step_no, alpha_now]
+            P = copy.deepcopy(eng.predictor_model); A = copy.deepcopy(eng.adversary_model)
+            P.train(); A.train()
+            Yh = P(Xt)
+            LP = eng.predictor_loss(Yh, Yt)
+            pp = list(P.parameters()); ap = list(A.parameters())
+            gP = torch.autograd.grad(LP, pp, retain_graph=True, allow_unused=True)
+            Z = torch.cat((Yh, Yt), dim=1) if est.pass_y_ else Yh
+            LA = eng.adversary_loss(A(Z), At)
+            gAp = torch.autograd.grad(LA, pp, retain_graph=True, allow_unused=True)
+            gAu = torch.autograd.grad(LA, ap, allow_unused=True)
+            if not all(torch.isfinite(t).all() for t in list(gP) + list(gAp) + list(gAu) if t is not None):
+                return out, None                                           # non-finite loss gradient: nothing to compare
+            before_p = [p.detach().clone() for p in eng.predictor_model.parameters()]
+            before_a = [p.detach().clone() for p in eng.adversary_model.parameters()]
+            est.partial_fit(X, y, sensitive_features=sf)                  # the observed step
+            for i, p in enumerate(eng.predictor_model.parameters()):
+                gp = gP[i] if gP[i] is not None else torch.zeros_like(before_p[i])
+                ga = gAp[i] if gAp[i] is not None else torch.zeros_like(before_p[i])
+                nn_ = float((ga.double() * ga.double()).sum())
+                if p.dim() == 2 and p.shape[0] > 1 and p.shape[1] > 1:
+                    multi = True
+                if nn_ == 0.0:
+                    zero = True
+                    g = gp
+                else:
+                    g = gp - ((ga.double() * gp.double()).sum() / nn_).float() * ga - alpha_now * ga
+                exp = before_p[i] - lr * g
+                got = p.detach()
+                scale = max(1.0, float(exp.abs().max()))
+                if torch.isnan(got).any():
+                    out.append(({"api": "train_step", "kind": "nan", "gA_zero": nn_ == 0.0, **sig0}, f"predictor tensor {i} (shape {tuple(p.shape)}) became NaN; |dLA/dW|^2 = {nn_}", detail))
+                elif float((got - exp).abs().max()) > TOL * scale:
+                    out.append(({"api": "train_step", "kind": "predictor_update", "several_rows": bool(p.dim() == 2 and p.shape[0] > 1), "step": step_no, **sig0},
+                                f"step {step_no} (alpha={alpha_now}): predictor tensor {i} (shape {tuple(p.shape)}) differs from the documented update by {float((got - exp).abs().max())}", detail))
+            for i, p in enumerate(eng.adversary_model.parameters()):
+                gu = gAu[i] if gAu[i] is not None else torch.zeros_like(before_a[i])
+                exp = before_a[i] - lr * gu
+                if float((p.detach() - exp).abs().max()) > TOL * max(1.0, float(exp.abs().max())):
+                    out.append(({"api": "train_step", "kind": "adversary_update", **sig0}, f"adversary tensor {i} does not follow the plain gradient of LA", detail))
+            if out:
+                break
         return out, (multi, zero, cons)
     except Exception as e:
         out.append(({"api": "adversarial", "kind": "exception", "exc": type(e).__name__, **sig0}, f"raised {e!r}", detail))
